@@ -357,7 +357,9 @@ def check_dihedral(r) -> list[Fail]:
         side3 = sorted(nx.node_connected_component(g2, a3))
         other = [i for i in range(mm.n_atoms) if i not in side3]
         d0 = mm.dihedral(a1, a2, a3, a4)
-        mm.rotate_dihedral((mm.atoms[a1], mm.atoms[a2], mm.atoms[a3], mm.atoms[a4]), target)
+        # the four atoms are named as Atom objects or, every third candidate, as integer indices (AtomLike)
+        quad = (mm.atoms[a1], mm.atoms[a2], mm.atoms[a3], mm.atoms[a4]) if (a1 + a4) % 3 else (a1, a2, a3, a4)
+        mm.rotate_dihedral(quad, target)
         d1 = mm.dihedral(a1, a2, a3, a4)
         keys.append((r.get("file", "gen"), a1, a2, a3, a4, round(target, 6)))
         err = abs((d1 - target + math.pi) % (2 * math.pi) - math.pi)
